@@ -201,6 +201,10 @@ func rrlawsEngine(args []string) error {
 				setPar("ssout", 0)
 			}
 			mc.layout()
+			if os.Getenv("RR_DUMP") == fmt.Sprintf("%s:%d", name, c) {
+				dj, _ := json.Marshal(map[string]interface{}{"model": name, "case": c, "params": mc.Params, "rain": rain, "pet": pet})
+				os.WriteFile(os.Getenv("RR_DUMP_TO"), dj, 0644)
+			}
 			run := func(n int) (out [][]float64, st []float64, pm string) {
 				m := sim.Catalog[name]()
 				pm = protect(func() {
